@@ -295,6 +295,23 @@ def run(rep):
                     rep.evaluations += 1
                     if why:
                         rep.violation({'kind': 'roundtrip', 'clause': 'to_cache-changed-the-saved-object:' + why, 'loader': kind, 'args': a, 'mode': mode})
+        # ---- the same cache path written twice with different content, read after each write; and read twice
+        for kind, ld in loaders.items():
+            keys = list(ld.fresh)
+            if len(keys) < 2:
+                continue
+            f = root / f'rewrite-{kind}.cache'
+            for a in (keys[0], keys[1], keys[0]):
+                ld.fresh[a].to_cache(f)
+                for _ in range(2):
+                    back = Trajectory.from_cache(f)
+                    why = same(back, ld.fresh[a])
+                    rep.evaluations += 1
+                    if why:
+                        rep.violation({'kind': 'roundtrip', 'clause': 'from_cache-after-the-file-was-rewritten:' + why, 'loader': kind, 'args': a})
+                    # what a caller does with ITS loaded object must not reach the next caller
+                    back.metadata['scribble'] = 1
+                    del back
     finally:
         shutil.rmtree(root, ignore_errors=True)
     rep.exhaustive = True
